@@ -112,6 +112,12 @@ func (sg *storeGen) nextIndex() int {
 		i = sg.base
 	case 5: // wide
 		i = sg.base + r.Range(-2000, 2000)
+	case 7: // one unit entry per page: fills a paginated buffer beyond its compaction trigger
+		sg.cur++
+		i = sg.base + 32*(sg.cur-sg.base) + r.Intn(32)
+		if r.Bool(15) {
+			i = sg.base + 32*r.Intn(sg.cur-sg.base+1) + r.Intn(32) // revisit: some pages fill up and compact
+		}
 	default: // around the bin limit
 		n := sg.nHint
 		if n == 0 {
@@ -131,6 +137,9 @@ func (sg *storeGen) nextIndex() int {
 
 func (sg *storeGen) nextWeight() *big.Rat {
 	r := sg.g.rng
+	if sg.shape == 7 && r.Bool(85) {
+		return ratInt(1)
+	}
 	switch r.Pick(55, 12, 14, 3, 4, 8, 4) {
 	case 0:
 		return ratInt(1)
@@ -211,7 +220,7 @@ func (sg *storeGen) ids() []int {
 func (g *Gen) genStoreHistory(prop string, maxOps int) {
 	r := g.rng
 	sg := &storeGen{g: g, prop: prop, h: map[int]*gstore{}}
-	sg.shape = r.Intn(7)
+	sg.shape = r.Intn(8)
 	bases := []int{0, 0, 5, -37, 1000, -1000, 32 * 1000, -32 * 1000, 1 << 16, -(1 << 16), 1<<31 - 1 - 70000, -(1 << 31) + 70000, 1 << 24}
 	sg.base = bases[r.Intn(len(bases))] + r.Range(-3, 3)
 	sg.cur = sg.base
@@ -228,6 +237,10 @@ func (g *Gen) genStoreHistory(prop string, maxOps int) {
 		sg.newHandle(3, false)
 	}
 	nOps := r.Range(maxOps/4+1, maxOps)
+	if sg.shape == 7 {
+		nOps = r.Range(150, 420) // enough unit adds to exceed the initial trigger (64) and later ones
+		sg.spanCap = 1 << 15
+	}
 	// op weights per property
 	wAdd, wMerge, wCopy, wClear, wRew, wObs := 60, 8, 3, 3, 4, 10
 	wCodec := 4
